@@ -89,7 +89,10 @@ class PolynomialTrendForecaster(_OptionalForecastingHorizonMixin, _SktimeForecas
             regressor,
         )
 
-        # transform data
+        # transform data (time is counted from the first training time point: it is
+        # remembered, since later updates may prepend older observations to `_y`
+        # without re-estimating the trend)
+        self._y_start = self._y.index[0]
         n_timepoints = _get_duration(self._y.index, coerce_to_int=True) + 1
         X = np.arange(n_timepoints).reshape(-1, 1)
 
@@ -123,7 +126,7 @@ class PolynomialTrendForecaster(_OptionalForecastingHorizonMixin, _SktimeForecas
             raise NotImplementedError()
 
         # use relative fh as time index to predict
-        fh = self.fh.to_absolute_int(self._y.index[0], self.cutoff)
+        fh = self.fh.to_absolute_int(self._y_start, self.cutoff)
         X_pred = fh.to_numpy().reshape(-1, 1)
         y_pred = self.regressor_.predict(X_pred)
         return pd.Series(y_pred, index=self.fh.to_absolute(self.cutoff))
